@@ -52,7 +52,12 @@ def run_case(case):
     trig = case["triggers"]
     n = len(trig)
     from vmon.simkit import omit
-    srcs = [event.Source(**omit(rng, "event.Source", trigger=t), path=(f"s{i}",)) for i, t in enumerate(trig)]
+    # signal names are labels, not identities: sources created without a path, or as the equally named port of
+    # several instances of one peripheral class, all carry the same signal names
+    naming = rng.choice(["distinct", "distinct", "distinct", "pathless", "same_path"])
+    srcs = [event.Source(**omit(rng, "event.Source", trigger=t),
+                         **({"path": (f"s{i}",)} if naming == "distinct" else {} if naming == "pathless" else {"path": ("irq",)}))
+            for i, t in enumerate(trig)]
     emap = event.EventMap()
     first = []
     for s in case["add_history"]:
